@@ -44,22 +44,81 @@ func c07Call(e *EngineFacade, which int, k, v []byte) {
 			tx.Get(k)
 			tx.Rollback()
 		}
+	case 10: // a read-write transaction whose commit the log refuses (one value does not fit a log record)
+		tx, err := e.BeginTransaction(false)
+		if err == nil {
+			tx.Put(k, make([]byte, wal.MaxRecordSize+1))
+			if tx.Commit() == nil {
+				vsym.Assert(false, "a commit with an oversized value succeeded")
+			}
+		}
+	case 11:
+		e.TriggerCompaction()
+	case 12:
+		it, err := e.GetRangeIterator(k, []byte{0xff, 0xff})
+		if err == nil {
+			for it.SeekToFirst(); it.Valid(); it.Next() {
+				_ = it.Value()
+			}
+		}
+		e.GetCompactionStats()
 	}
 }
 
-// VerifC07_Pairs: every unordered pair of entry points, one call each from two goroutines, on a small engine:
+// VerifC07_Pairs: every unordered pair of thirteen entry points, one call each from two goroutines, on a small engine:
 // no data race, no panic, no deadlock, both calls return.
 func VerifC07_Pairs() {
 	e, err := NewEngineFacade(vsym.Dir())
 	vsym.Assert(err == nil, "open failed")
 	k1, k2 := vsym.Bytes("k1", 1), vsym.Bytes("k2", 1)
 	e.Put(k1, vsym.Bytes("v0", 1))
-	a := vsym.IntRange("a", 0, 9)
-	b := vsym.IntRange("b", a, 9)
+	a := vsym.IntRange("a", 0, 12)
+	b := vsym.IntRange("b", a, 12)
 	var wg sync.WaitGroup
 	wg.Add(2)
 	go func() { defer wg.Done(); c07Call(e, a, k1, vsym.Bytes("va", 1)) }()
 	go func() { defer wg.Done(); c07Call(e, b, k2, vsym.Bytes("vb", 1)) }()
 	wg.Wait()
+	vsym.Reach("done")
+}
+
+// VerifC07_WritersVsBackgroundFlush: two clients each write twice into an engine whose memtable holds one byte, so
+// that every write hands a table to the background flush goroutine, which runs as a third thread (an explicit
+// flush may run as a fourth). No data race, panic or deadlock; every call returns; both clients' last writes
+// are readable afterwards.
+func VerifC07_WritersVsBackgroundFlush() {
+	h := &hEnv{}
+	h.hKeys(2)
+	h.hOpen(true, true)
+	e := h.e
+	explicit := vsym.Thorough() && vsym.IntRange("explicitFlush", 0, 1) == 1
+	var wg sync.WaitGroup
+	n := 2
+	if explicit {
+		n = 3
+	}
+	wg.Add(n)
+	var last [2][]byte
+	for i := 0; i < 2; i++ {
+		i := i
+		go func() {
+			defer wg.Done()
+			for j := 0; j < 2; j++ {
+				v := vsym.Bytes("v", 1)
+				if e.Put(h.K[i], v) == nil {
+					last[i] = v
+				}
+			}
+		}()
+	}
+	if explicit {
+		go func() { defer wg.Done(); e.FlushImMemTables() }()
+	}
+	wg.Wait()
+	for i := 0; i < 2; i++ {
+		got, err := e.Get(h.K[i])
+		vsym.Assert(last[i] != nil, "every write of a client failed")
+		vsym.Assert(err == nil && vsym.EqBytes(got, last[i]), "a client's last acknowledged write is not readable after concurrent writes and flushes")
+	}
 	vsym.Reach("done")
 }
